@@ -595,10 +595,10 @@ def check_C02(tier, seed):
     lexes = []
     # (the last one: words that may START with a byte >= 0x80 - such a byte is part of the lexeme, never a blank to be skipped)
     for li, ts in enumerate([[lxl.R('(a|b)+'), lxl.C(',')], [lxl.R('(ab|c)+'), lxl.C(',')], [lxl.R('(ab?)+'), lxl.C(',')], [lxl.R('[a-c](_?[a-c0-9])+'), lxl.C('=')],
-                             [lxl.R('[a-c\\x80-\\xff]+'), lxl.C(',')]]):
+                             [lxl.R('[a-c\\x80-\\xff]+'), lxl.C(',')], [lxl.R('(a+)?,'), lxl.R('b(a*b)?')]]):
         el = pipeline.lex_entry('c02lex%d' % li, ts)
-        al = [ord(c) for c in ('ab, ' if li == 0 else 'abc, ' if li == 1 else 'ab, ' if li == 2 else 'a_0= ')] if li < 4 else [0xe0, 0xc9, 0xa0, 0x89, 0x8d, 97, 32, 44]
-        lins = [sx for sx in gram.all_strings(al, 5 if li < 4 else 4)][:1500 if tier == 'quick' else 4000] + [list(b'ab ba'), list(b'bb abba'), list(b'cab abcc'), list(b'abab,aab'), list(b'a_b0=c__a')]
+        al = [ord(c) for c in ('ab, ' if li == 0 else 'abc, ' if li == 1 else 'ab, ' if li == 2 else 'a_0= ')] if li < 4 else ([0xe0, 0xc9, 0xa0, 0x89, 0x8d, 97, 32, 44] if li == 4 else [97, 98, 44, 32])
+        lins = [sx for sx in gram.all_strings(al, 5 if li != 4 else 4)][:1500 if tier == 'quick' else 4000] + [list(b'ab ba'), list(b'bb abba'), list(b'cab abcc'), list(b'abab,aab'), list(b'a_b0=c__a')]
         pipeline.add_jobs(el, lins, verbose=False)
         lexes.append(el)
     entries += lexes
@@ -2424,6 +2424,10 @@ def check_C18(tier, seed):
         if len(toks) > 9:
             toks = toks[:3] + rng.sample(toks[3:], 6)
         alpha = toks + [0x20, 0x0a, 0x21, 0x00]
+        # every whitespace character between custom-lexer terms, under each option set: the lexer is asked at TERMS only
+        wsx = [[toks[0], w, toks[0]] for w in (0x09, 0x0b, 0x0c, 0x0d)] + [[0x0c, toks[0]], [toks[0], 0x0c], [toks[0], 0x0b, 0x0d, 0x09, 0x0c, toks[0]]]
+        for (ws_, nl_) in ((1, 1), (1, 0), (0, 1)):
+            pipeline.add_jobs(e, wsx, verbose=True, ws=ws_, nl=nl_, tag='wsx%d%d_' % (ws_, nl_))
         if not e.g.has_error():
             # zero-length answers (virtual terms): byte 0x80 + i = term i with length 0, once per offset, then length 1
             # (not for error-rule grammars: discarding a zero-length term in consume mode makes no progress - the
@@ -2583,6 +2587,9 @@ def check_C14(tier, seed):
             # ... and with a value type that has a move constructor but NO move assignment (assigning to it copies): the library
             # hands values on by construction, never by assigning over a used slot
             entries.append(pipeline.gen_entry(g, gid=n + '@valnma', defines=('VH_NO_MOVE_ASSIGN',)))
+            # ... and with non-root nonterminals of a SECOND value type built from what the functors return (a conversion of the
+            # functor's result - an rvalue - into the left side's type: moved, not copied)
+            entries.append(pipeline.gen_entry(g, gid=n + '@valalt', alt_nts=[i for i, x in enumerate(g.nts) if x != g.root]))
         if not g.has_error():
             entries.append(pipeline.gen_entry(g, gid=n + '@valdflt', dflt=sorted(range(0, len(g.rules), 2))))
             # (the odd rules without a functor: in most catalogue grammars these are the UNIT rules, whose value is handed on)
